@@ -55,6 +55,12 @@ World(s) ==
       w1 == LoadOp(EmptyState(disk), Bystander).s
   IN IF s = "stopped" THEN w1 ELSE LoadOp(w1, Target).s
 
+WorldOf == [s \in NodeStates |-> World(s)]       \* (a constant: evaluated once)
+
+\* state of the DKG state machine of the target chain, as far as it decides handler paths:
+\* isValidStateChange(current, Proposed) holds from Fresh and from Complete (a migrated running chain)
+AdmitsProposal(s) == s \in {"fresh", "running"}
+
 -----------------------------------------------------------------------------
 (* lock names and operations of a program                                    *)
 
@@ -84,7 +90,7 @@ HttpEps   == {"HttpInfo", "HttpLatest", "HttpRound", "HttpHealth"}
 \* body classes: what decides the path through the handler after routing
 RoutedBodies(ep) == IF ep = "PublicRand" THEN {"any", "next"} ELSE {"any"}
 GossipMeta  == {"nil", "shortSig", "ok"}                    \* GossipPacket.metadata
-Variants    == {"none", "proposal", "accept", "reject", "abort", "execute", "dkgNilInner", "dkgNoMeta", "dkgWithMeta"}
+Variants    == {"none", "proposal", "proposalNoLeader", "accept", "reject", "abort", "execute", "dkgNilInner", "dkgNoMeta", "dkgWithMeta"}
 BcastBodies == {"nilDkg", "noMeta", "ok"}                   \* DKGPacket.dkg / its metadata
 HttpBodies(ep) == IF ep = "HttpRound" THEN {"any", "badRound"} ELSE {"any"}
 
@@ -131,13 +137,15 @@ RoutedOps(s, c) ==
 
 \* dd.Packet (proxy) then dkg.Process.Packet: d.lock with defer; the Dkg variant calls d.BroadcastDKG,
 \* which dereferences packet.Dkg.Metadata and then takes d.lock AGAIN
-DKGPacketOps(s, c) ==
+DKGPacketOps(nsv, s, c) ==
   IF c.gm = "nil" THEN <<Ret("reject")>>
   ELSE IF c.id \notin DOMAIN s.procs THEN <<Ret("reject")>>                 \* beaconExists on the raw id
   ELSE <<Acq("dkg", "W", TRUE)>> \o
        (IF c.gm = "shortSig" THEN <<Rel("dkg"), Ret("reject")>>
         ELSE CASE c.body \in {"dkgNilInner", "dkgNoMeta"} -> <<Panic>>
                [] c.body = "dkgWithMeta" -> <<Acq("dkg", "W", FALSE), Rel("dkg"), Rel("dkg"), Ret("reject")>>
+               \* DBState.Proposed reads terms.Leader.Address once the state change is admissible
+               [] c.body = "proposalNoLeader" /\ c.id = Target /\ AdmitsProposal(nsv) -> <<Panic>>
                [] OTHER -> <<Rel("dkg"), Ret("reject")>>)
 
 BroadcastOps(s, c) ==
@@ -160,11 +168,12 @@ HttpOps(s, c) ==
               [] c.ep = "HttpHealth" -> HttpLookup \o HttpStartOps(x) \o <<Acq(PL(x), "R", FALSE), Rel(PL(x))>>
                                          \o HttpInfoOps(x) \o <<Ret("ok")>>
 
-Prog(s, c) ==
+Prog(nsv, c) ==
+  LET s == WorldOf[nsv] IN
   CASE c.ep \in RoutedEps -> RoutedOps(s, c)
     [] c.ep = "ListBeaconIDs" -> <<Acq("dd", "R", TRUE), Rel("dd"), Ret("ok")>>
     [] c.ep \in {"Metrics", "HttpChains"} -> <<Ret("ok")>>
-    [] c.ep = "DKGPacket" -> DKGPacketOps(s, c)
+    [] c.ep = "DKGPacket" -> DKGPacketOps(nsv, s, c)
     [] c.ep = "BroadcastDKG" -> BroadcastOps(s, c)
     [] c.ep \in HttpEps -> HttpOps(s, c)
 
@@ -222,9 +231,9 @@ RunSeq(prog, pc, L, t, held) ==
 HeldLocks(L) == {l \in Locks : L[l].w # 0 \/ L[l].r # {}}
 
 \* outcome of one call on a quiescent daemon in node state s
-Outcome(s, c) == RunSeq(Prog(World(s), c), 1, FreeLocks, 1, <<>>)
+Outcome(s, c) == RunSeq(Prog(s, c), 1, FreeLocks, 1, <<>>)
 \* would call p return if it were made after call c (p runs on what c left behind)?
-ProbeAfter(s, c, p) == RunSeq(Prog(World(s), p), 1, Outcome(s, c).L, 2, <<>>)
+ProbeAfter(s, c, p) == RunSeq(Prog(s, p), 1, Outcome(s, c).L, 2, <<>>)
 
 -----------------------------------------------------------------------------
 (* Monitors (on observed outcomes; also the invariants of the Seq machine)   *)
@@ -247,7 +256,7 @@ InitE == /\ ns \in NodeStates
 DoCall(c) ==
   /\ Sent(c)
   /\ Cardinality(DOMAIN th) < 3
-  /\ LET o == RunSeq(Prog(st, c), 1, lk, nxt, <<>>) IN
+  /\ LET o == RunSeq(Prog(ns, c), 1, lk, nxt, <<>>) IN
      /\ lk' = o.L
      /\ th' = [t \in (DOMAIN th) \cup {nxt} |-> IF t = nxt THEN [call |-> c, status |-> o.res, on |-> o.on] ELSE th[t]]
   /\ nxt' = nxt + 1
@@ -259,9 +268,10 @@ ViewSeq == <<ns, lk, {th[t].status : t \in DOMAIN th}>>
 
 Inv_Responds   == \A t \in DOMAIN th : Responds(th[t].status)
 Inv_NoLockLeft == (\A t \in DOMAIN th : th[t].status # "stuck") => NoLockLeft(lk)
-\* every program releases what it acquires, in every state (static well-formedness of the transcription)
-Inv_Balanced == \A s \in NodeStates : \A c \in {d \in Calls : Sent(d)} :
-                   Outcome(s, c).res = "done" => NoLockLeft(Outcome(s, c).L)
+\* every program that returns releases what it acquired, in every state (static well-formedness of the
+\* transcription; a constant-level formula, checked once by an ASSUME of the MC module)
+Balanced == \A s \in NodeStates : \A c \in {d \in Calls : Sent(d)} :
+               Outcome(s, c).res = "done" => NoLockLeft(Outcome(s, c).L)
 
 -----------------------------------------------------------------------------
 (* Conc: one request || one internal event, interleaved at lock operations   *)
@@ -277,7 +287,7 @@ InitC == /\ ns \in NodeStates
          /\ st = World(ns) /\ steps = 0 /\ last = [kind |-> "init"]
          /\ lk = FreeLocks /\ nxt = 0
          /\ \E c \in {d \in Calls : SentIn(ns, d)} : \E e \in Events(ns) :
-              th = [t \in {1, 2} |-> IF t = 1 THEN Thread(c, Prog(World(ns), c)) ELSE Thread(e, EventProg(e))]
+              th = [t \in {1, 2} |-> IF t = 1 THEN Thread(c, Prog(ns, c)) ELSE Thread(e, EventProg(e))]
 
 StepC(t) ==
   /\ th[t].status = "run"
@@ -302,11 +312,32 @@ StepC(t) ==
 NextC == \E t \in {1, 2} : StepC(t)
 SpecC == InitC /\ [][NextC]_evars
 
+\* static lock-order analysis of two programs: <<held lock, its mode, lock being acquired, its mode>>
+RECURSIVE HoldPairs(_, _, _)
+HoldPairs(prog, pc, held) ==
+  IF pc > Len(prog) THEN {}
+  ELSE LET op == prog[pc] IN
+    CASE op.k = "acq" -> {<<held[i].l, held[i].m, op.l, op.m>> : i \in DOMAIN held}
+                         \cup HoldPairs(prog, pc + 1, Append(held, [l |-> op.l, m |-> op.m]))
+      [] op.k = "rel" -> HoldPairs(prog, pc + 1, RemoveHeld(held, op.l))
+      [] op.k \in {"panic", "ret"} -> {}
+      [] OTHER -> HoldPairs(prog, pc + 1, held)
+Conflicts(m1, m2) == ~(m1 = "R" /\ m2 = "R")
+\* thread 1 holds A and wants B while thread 2 holds B and wants A
+ABBA(p1, p2) ==
+  \E a \in HoldPairs(p1, 1, <<>>), b \in HoldPairs(p2, 1, <<>>) :
+     /\ a[1] = b[3] /\ a[3] = b[1] /\ a[1] # a[3]
+     /\ Conflicts(a[2], b[4]) /\ Conflicts(b[2], a[4])
+\* can request c of node state s deadlock with internal event e?
+CanDeadlock(s, c, e) == ABBA(Prog(s, c), EventProg(e))
+
 Running(t) == th[t].status = "run"
 CanStep(t) == /\ Running(t) /\ th[t].pc <= Len(th[t].prog)
               /\ LET op == th[t].prog[th[t].pc] IN
                  op.k = "acq" => (CanAcq(lk, t, op) \/ (op.m = "W" /\ t \notin lk[op.l].q))
 \* no reachable state in which a handler (or the daemon's own step) waits for a lock for ever
 Inv_NoDeadlock == (\E t \in {1, 2} : Running(t)) => (\E t \in {1, 2} : CanStep(t))
+\* every deadlock of the Conc machine is a lock-order inversion of the two programs
+Inv_DeadlockIsABBA == ((\E t \in {1, 2} : Running(t)) /\ ~(\E t \in {1, 2} : CanStep(t))) => ABBA(th[1].prog, th[2].prog)
 Inv_ConcNoLockLeft == (\A t \in {1, 2} : ~Running(t)) => NoLockLeft(lk)
 =============================================================================
